@@ -34,9 +34,15 @@ case " $* " in *" --replay "*) ;; *)
   (cd "$VERIF_ROOT" && go build -tags verif -overlay "$WORK/c13conc.overlay.json" -o "$WORK/bin/c13conc" ./checks/c13conc) || exit 2
   rm -f "$VERIF_ROOT/evidence/C13.conc.json"
   VERIF_EVIDENCE_SUFFIX=.conc "$WORK/bin/c13conc" "$@"; rc1=$?
+  # manager part: what the endpoint manager hands to its selectors when endpoints are blocked, recover and
+  # the registry changes (the hashed and three-endpoint histories of checks/c15, reported under C13)
+  E1_SRC=c15 build_e1 c13e2e $TARS_E1_ARGS
+  rm -f "$VERIF_ROOT/evidence/C13.e2e.json"
+  C15_AS=C13 C15_ONLY=call VERIF_EVIDENCE_SUFFIX=.e2e "$WORK/bin/c13e2e" "$@"; rc3=$?
+  [ $rc3 -gt $rc1 ] && rc1=$rc3
   ;;
 esac
 "$WORK/bin/$name" "$@"; rc2=$?
-rm -f "$VERIF_ROOT/evidence/C13.conc.json"
+rm -f "$VERIF_ROOT/evidence/C13.conc.json" "$VERIF_ROOT/evidence/C13.e2e.json"
 [ $rc1 -gt $rc2 ] && exit $rc1
 exit $rc2
